@@ -318,6 +318,12 @@ impl WorldB {
         let snap_before = self.server_snap();
         let connected_addr = sess_id.is_some();
         let valid_request_model = ptype == T_REQUEST && !bogus && rec_tid.map(|t| self.token_valid_now(t)).unwrap_or(false);
+        // a valid response: sealed under the keys of the half-open entry of its source address and echoing a challenge that
+        // this server incarnation issued for that entry's client id
+        let valid_response_model = ptype == T_RESPONSE
+            && !bogus
+            && self.pend_model.get(&src).map(|p| Some(p.0) == rec_tid).unwrap_or(false)
+            && rec_tid.map(|t| self.ledger[ix].challenge_for == Some((self.tokens[t].id, self.incarnation))).unwrap_or(false);
         if ptype == T_REQUEST && !bogus {
             if let Some(t) = rec_tid {
                 if self.sv_ms / 1000 < self.tokens[t].expire_ts {
@@ -394,12 +400,11 @@ impl WorldB {
                 if len >= in_len {
                     obs.violate("C19", "reply-not-smaller-than-request", tname(ptype), format!("input {} bytes reply {} bytes", in_len, len));
                 }
-                let valid_response_model = ptype == T_RESPONSE && !bogus;
                 if !(valid_request_model || valid_response_model) {
                     obs.violate(
                         "C19",
                         "reply-to-invalid-datagram",
-                        &format!("{}/{}", tname(ptype), if bogus { "bogus" } else { "invalid-token" }),
+                        &format!("{}/{}", tname(ptype), if bogus { "bogus" } else if ptype == T_RESPONSE { "invalid-response" } else { "invalid-token" }),
                         format!("input {} bytes from {} got a {} byte reply", in_len, src, len),
                     );
                 }
